@@ -107,14 +107,24 @@ pub fn check_graph(item: u64, g: &GraphSpec, desc: &str, sig: &[Vec<isize>], acc
         acc.count("cached_factor_skipped_overall_dod_rounds_to_nonpositive");
     } else if go.dod().is_positive() {
         let want = normalisation_oracle(g, qf(&jx[full]), omega, loops);
-        let rel = ((tv.cached_factor - want) / want).abs();
-        // Gamma near its pole at 0 amplifies the rounding of omega itself
-        let amp = 1.0 + wsum / omega * if dyadic { 0.0 } else { 1.0 };
-        let tolc = 1e-11 * amp + rel_tol;
-        acc.max("cached_factor_relerr_over_tol", rel / tolc);
-        acc.count("cached_factor_checked");
-        if !(rel <= tolc) {
-            bad.push(format!("cached_factor {:e} vs J(G) Gamma(dod)/prod Gamma(w) pi^(DL/2) = {:e} (rel {:e})", tv.cached_factor, want, rel));
+        if !(want.is_finite() && want > 1e-290 && want < 1e290) {
+            // the exact normalisation itself is not a (normal) f64: nothing the library could store
+            acc.count("cached_factor_skipped_exact_value_not_representable");
+        } else {
+            let rel = ((tv.cached_factor - want) / want).abs();
+            // Gamma near its pole at 0 amplifies the rounding of omega itself
+            let amp = 1.0 + wsum / omega * if dyadic { 0.0 } else { 1.0 };
+            // ln Gamma of large arguments: the absolute error of the logarithm is relative in the value
+            let lnmag: f64 = ln_gamma(omega).abs() + g.weights.iter().map(|w| ln_gamma(*w).abs()).sum::<f64>();
+            let tolc = 1e-11 * amp + rel_tol + 64.0 * EPS * lnmag;
+            acc.max("cached_factor_relerr_over_tol", rel / tolc);
+            acc.count("cached_factor_checked");
+            if omega >= 170.0 {
+                acc.count("cached_factor_checked_beyond_gamma_overflow");
+            }
+            if !(rel <= tolc) {
+                bad.push(format!("cached_factor {:e} vs J(G) Gamma(dod)/prod Gamma(w) pi^(DL/2) = {:e} (rel {:e})", tv.cached_factor, want, rel));
+            }
         }
     } else {
         acc.count("cached_factor_skipped_dod<=0");
